@@ -160,7 +160,10 @@ pub use crate::{
 #[doc(hidden)]
 pub mod verif_hooks {
     pub use crate::format_version::verif_try_version_from_line as try_version_from_line;
-    pub use crate::reader::{VerifDecoder as Decoder, VerifEncoding as Encoding};
+    pub use crate::reader::{
+        VerifDecoder as Decoder, VerifEncoding as Encoding, VerifU16BeIterator as U16BeIterator,
+        VerifU16LeIterator as U16LeIterator,
+    };
     pub use crate::section::hit_objects::verif_curve as curve;
     pub use crate::section::hit_objects::verif_decode as hit_objects;
     pub use crate::section::timing_points::verif_decode as timing_points;
